@@ -44,20 +44,21 @@ type Conn struct {
 
 // Params shape a history.
 type Params struct {
-	Conns        int
-	MaxStream    int
-	Flushes      bool // interleave FlushOlderThan calls
-	MidFlushAll  bool // FlushAll in the middle (C11)
-	NoSYN        int  // 1-in-N directions are fed without their SYN (0 = never)
-	JitterTS     bool
-	Both         bool // both directions carry data
-	CloseProb    int  // percent of directions that end with FIN/RST
-	SmallSegs    bool
-	MaxSegs      int
-	ReopenAfter  bool
-	BigSegs      bool // multi-page segments (2..5 pages)
-	Stall        int  // 1-in-N directions deliver their first data segment last, so everything else queues (0 = never)
-	MixSizes     bool // mix 1-page and multi-page segments in one direction
+	Conns       int
+	MaxStream   int
+	Flushes     bool // interleave FlushOlderThan calls
+	MidFlushAll bool // FlushAll in the middle (C11)
+	NoSYN       int  // 1-in-N directions are fed without their SYN (0 = never)
+	JitterTS    bool
+	Both        bool // both directions carry data
+	CloseProb   int  // percent of directions that end with FIN/RST
+	SmallSegs   bool
+	MaxSegs     int
+	ReopenAfter bool
+	BigSegs     bool // multi-page segments (2..5 pages)
+	Stall       int  // 1-in-N directions deliver their first data segment last, so everything else queues (0 = never)
+	MixSizes    bool // mix 1-page and multi-page segments in one direction
+	EarlyFIN    int  // 1-in-N directions carry an extra FIN/RST on a mid-stream segment (bogus: data follows it); 0 = never
 }
 
 // History is a generated sequence of API calls plus the assembler configuration.
@@ -144,6 +145,16 @@ func genDir(r *vlib.Rand, h *History, ci, dir int, p Params, withSYN bool, close
 	case 2:
 		orig = append(orig, Seg{Conn: ci, Dir: dir, Seq: isn + 1 + uint32(n), RST: true, Off: n})
 		h.Features["rst"] = true
+	}
+	if p.EarlyFIN > 0 && r.Chance(1, p.EarlyFIN) && len(orig) > 3 {
+		// a FIN or RST in the middle of the sequence space: whatever follows it is data past the end of the stream
+		k := r.Range(1, len(orig)-2)
+		if r.Bool() {
+			orig[k].FIN = true
+		} else {
+			orig[k].RST = true
+		}
+		h.Features["earlyfin"] = true
 	}
 	// retransmissions: exact duplicates, supersets, subsets, partial overlaps — always carrying consistent data
 	nre := 0
